@@ -229,5 +229,5 @@ pub fn main(args: &Args) {
         total.nontrivial(1);
         total.nontrivial(2);
     }
-    total.write(out, "traffic states of 0..16 connections each in {just accepted, idle keep-alive, half-sent request, handler running 5 ms / 500 ms / 1.2-3 s, 1-4 MiB response to a reader that is not reading, WebSocket open} on pools of 1..8 threads (incl. fully occupied pools with queued connections), bound to 127.0.0.1, 0.0.0.0 or [::]; signal sent before any connection, after the traffic has settled, or from another thread during the burst of connects; seeded delays at the two accept-loop failpoints; plus applications whose connection condition keeps the accept thread busy for up to 1.2 s per connection, signalled while a silent client is being examined. distinct = distinct scenarios; every scenario is non-trivial (return, re-bind and in-flight responses are judged)", None, &["bounded progress: run must return within 10 s of the signal (typical: milliseconds)", "connections racing with the signal may get a complete response or nothing, never a truncated one", "the process is kept alive so that handlers started before the signal can finish (as the property's observation point prescribes)"]);
+    total.write(out, "traffic states of 0..16 connections each in {just accepted, idle keep-alive, half-sent request, handler running 5 ms / 500 ms / 1.2-3 s, 1-4 MiB response to a reader that is not reading, WebSocket open} on pools of 1..8 threads (incl. fully occupied pools with queued connections), bound to 127.0.0.1, 0.0.0.0 or [::]; signal sent before any connection, after the traffic has settled, or from another thread during the burst of connects; seeded delays at the two accept-loop failpoints; plus applications whose connection condition keeps the accept thread busy for up to 1.2 s per connection, signalled while a silent client is being examined. distinct = distinct scenarios; every scenario is non-trivial (return, re-bind and in-flight responses are judged)", None, &["bounded progress: run must return within 10 s of the signal (typical: milliseconds)", "connections racing with the signal may get a complete response or nothing, never a truncated one; a request sent at least 100 ms before a signal that follows settled traffic is not racing: it must be answered even if it was still queued behind occupied workers", "the process is kept alive so that handlers started before the signal can finish (as the property's observation point prescribes)"]);
 }
